@@ -3,7 +3,7 @@ import os, sys
 sys.path.insert(0, os.path.join(os.path.dirname(os.path.abspath(__file__)), '..', 'lib'))
 import vcommon as V, e2e
 
-PROPS = ['props/C10.v', 'props/Pipeline.v', 'props/C10_src.v', 'props/State.v']
+PROPS = ['props/C10.v', 'props/Pipeline.v', 'props/C10_src.v', 'props/State.v', 'props/C10_inputs.v']
 ASSUMPTIONS = e2e.ASSUMPTIONS + [
     "purity of the Go functions cannot be proved about Go from a pure model: it is carried by the correspondence on histories (same in-memory objects verified repeatedly, caller-owned objects serialised before and after every call, fresh-copy comparison)",
     "order independence is proved for the model stages under permutations of every association list that stands for a Go map; "
